@@ -38,6 +38,8 @@ type origin struct {
 	calls       int
 	faults      []string
 	ctype       string // media type announced for valid documents
+	notModified int
+	etags       bool   // the server sends entity tags and honours If-None-Match (nginx, object stores, most frameworks)
 }
 
 func (o *origin) doc() string { return provsim.RuleSetYAML(o.host, o.version, 1+o.version%2) }
@@ -60,6 +62,7 @@ func httpProvSim(r *simcore.Run) {
 		for i := 0; i < nEP; i++ {
 			o := &origin{host: fmt.Sprintf("origin%d", i), kind: "valid", version: 1, model: provsim.NewSourceModel()}
 			o.ctype = simcore.Pick(s, []string{"application/yaml", "application/yaml", "application/yaml; charset=utf-8", "Application/YAML"}, "media-type")
+			o.etags = s.Draw(3, "entity-tags") != 0
 			o.source = "http_endpoint:http://" + o.host + "/rules.yaml"
 			origins = append(origins, o)
 			eps = append(eps, map[string]any{"url": "http://" + o.host + "/rules.yaml"})
@@ -87,6 +90,16 @@ func httpProvSim(r *simcore.Run) {
 					}
 					// the media type may carry parameters and is case-insensitive (what web frameworks send by default)
 					w.Header().Set("Content-Type", o.ctype)
+					if o.etags {
+						tag := `"` + id + `"`
+						w.Header().Set("ETag", tag)
+						if req.Header.Get("If-None-Match") == tag {
+							// a conditional request (heimdall sends none today): the document is the one the client names
+							o.notModified++
+							w.WriteHeader(http.StatusNotModified)
+							return
+						}
+					}
 					w.Write([]byte(doc))
 				case "invalid":
 					o.model.Kept("syntactically invalid")
@@ -247,6 +260,7 @@ func httpProvSim(r *simcore.Run) {
 			for _, k := range o.faults {
 				r.Count("fault:"+k, 1)
 			}
+			r.Count("conditional-requests-answered-304", o.notModified)
 			o.maxAge = 0
 			if s.Draw(3, "final") == 0 {
 				o.kind = "not-found"
